@@ -211,6 +211,11 @@ func Open(ctx context.Context, S3 S3Interface, cfg Config, opts OpenOptions, whe
 		if err != nil {
 			return nil, err
 		}
+		// A listed version can be retired by a concurrent commit or merge
+		// before it is read here; its object is then found among the merged
+		// versions. Skipping it would hide it and everything it contains
+		// (the successor is not in our listing either).
+		persists = []mast.Persist{rootPersist, mergedPersist}
 		skipUnreadable = true
 	}
 	tree, mergedRoots, unmergeableRoots, err = mergeRoots(ctx, versionsToLoad, cfg, crdtConfig, persists, when, opts.ForceRebranch, &kvVersion, skipUnreadable)
